@@ -601,4 +601,93 @@ Section W.
       + rewrite Hlk', Hlinks. rewrite a_upd_links. now apply Permutation_filter.
       + rewrite a_upd_root, Hrt'. exact Hroot.
   Qed.
+
+  (* ---------------------------------------------------------------- one command, histories *)
+  Theorem bstep_refines h g c h' rt r : Inv h -> Rep h g -> bstep h c = (h', rt, r) ->
+    match s_bstep g c rt with
+    | OutOfScope => True
+    | Bad => False
+    | Next g' => r = Ok /\ Inv h' /\ Rep h' g'
+    end.
+  Proof.
+    intros HI HR Hstep. destruct c as [o p k m|o p m|s t|a b|s t|n]; cbn [bstep s_bstep] in *.
+    - destruct (a_live g (dflt g p)) eqn:Hp; [|exact I].
+      destruct (add_node_refines h g o p k m HI HR Hp) as (h1 & n & Hadd & Hfresh & HI' & HR').
+      rewrite Hadd in Hstep. injection Hstep as <- <- <-. rewrite Hfresh. auto.
+    - destruct (a_live g (dflt g p)) eqn:Hp; [|exact I].
+      destruct (add_node_refines h g o p None m HI HR Hp) as (h1 & n & Hadd & Hfresh & HI' & HR').
+      rewrite Hadd in Hstep. injection Hstep as <- <- <-. rewrite Hfresh. auto.
+    - destruct (port_ok g s) eqn:Hs; [|exact I]. destruct (port_ok g t) eqn:Ht; [|exact I]. cbn [andb].
+      destruct (add_link_refines h g s t HI HR Hs Ht) as (h1 & Hadd & HI' & HR').
+      rewrite Hadd in Hstep. injection Hstep as <- <- <-. auto.
+    - destruct (a_live g a) eqn:Ha; [|exact I]. destruct (a_live g b) eqn:Hb; [|exact I]. cbn [andb].
+      destruct (add_order_link_refines h g a b HI HR Ha Hb) as (h1 & Hadd & HI' & HR').
+      rewrite Hadd in Hstep. injection Hstep as <- <- <-. auto.
+    - destruct (delete_link_refines h g s t HI HR) as (h1 & Hdel & HI' & HR').
+      rewrite Hdel in Hstep. injection Hstep as <- <- <-. auto.
+    - destruct (aget (a_nodes g) n) as [a|] eqn:Ha; [|exact I].
+      destruct (a_children a) eqn:Hch; [|exact I].
+      destruct (Nat.eqb_spec n (a_root g)) as [|Hnr]; [exact I|].
+      destruct (delete_node_refines h g n a HI HR Ha Hch Hnr) as (h1 & Hdel & HI' & HR').
+      rewrite Hdel in Hstep. injection Hstep as <- <- <-. auto.
+  Qed.
+
+  (* the history as the specification sees it: every command with the value the model returned *)
+  Fixpoint trace (h : hugr) (cs : list (bcmd Op Meta)) : list (bcmd Op Meta * ret) :=
+    match cs with
+    | [] => []
+    | c :: r => let '(h', rt, _) := bstep h c in (c, rt) :: trace h' r
+    end.
+
+  Theorem brun_refines cs : forall h g g', Inv h -> Rep h g ->
+    s_brun g (trace h cs) = Next g' -> Inv (brun h cs) /\ Rep (brun h cs) g'.
+  Proof.
+    induction cs as [|c cs IH]; intros h g g' HI HR; cbn [trace s_brun brun fold_left].
+    - intros [= <-]. auto.
+    - destruct (bstep h c) as [[h1 rt] r] eqn:E. cbn [s_brun fst].
+      pose proof (bstep_refines h g c h1 rt r HI HR E) as Hs.
+      destruct (s_bstep g c rt) as [| |g1]; try discriminate.
+      destruct Hs as (_ & HI1 & HR1). intros H. exact (IH h1 g1 g' HI1 HR1 H).
+  Qed.
+  (* the specification never rejects what the model returns *)
+  Theorem brun_never_bad cs : forall h g, Inv h -> Rep h g -> s_brun g (trace h cs) <> Bad.
+  Proof.
+    induction cs as [|c cs IH]; intros h g HI HR; cbn [trace s_brun]; [discriminate|].
+    destruct (bstep h c) as [[h1 rt] r] eqn:E. cbn [s_brun].
+    pose proof (bstep_refines h g c h1 rt r HI HR E) as Hs.
+    destruct (s_bstep g c rt) as [| |g1]; [discriminate|contradiction|].
+    destruct Hs as (_ & HI1 & HR1). now apply IH.
+  Qed.
+
+  (* Hugr(root_op) *)
+  Lemma LInv_empty : LInv {| fwd := []; bck := [] |}.
+  Proof.
+    split; [|split]; cbn.
+    - split; [constructor|split; [constructor|]]. intros k v. cbn. split; discriminate.
+    - intros p j H. discriminate.
+    - intros p j H. discriminate.
+  Qed.
+  Theorem init_inv o m : Inv (init o m) /\ Rep (init o m) (s_init 0 o m).
+  Proof.
+    unfold init, add_node_raw. cbn.
+    set (nd := {| nd_op := o; nd_parent := None; nd_inps := 0; nd_outs := 0; nd_children := []; nd_meta := m |}).
+    assert (Hget : forall x, get_node {| nodes := [Some nd]; links := {| fwd := []; bck := [] |}; free := []; root := 0 |} x
+                             = if Nat.eqb x 0 then Some nd else None).
+    { intros [|[|x]]; reflexivity. }
+    split; [split; [|split; [|split]]|].
+    - exact LInv_empty.
+    - split; cbn [free]; [constructor|]. intros n. rewrite Hget. cbn [nodes length]. split; [intros []|].
+      intros [Hl Hn]. destruct n; [discriminate|lia].
+    - intros s t []. 
+    - split; [|split; [|split]]; cbn [root].
+      + exists nd. split; reflexivity.
+      + intros n d. rewrite Hget. destruct n; [intros _ H; congruence|discriminate].
+      + intros p pd c. rewrite Hget. destruct p; [intros [= <-] []|discriminate].
+      + intros p pd. rewrite Hget. destruct p; [intros [= <-]; constructor|discriminate].
+    - split; [|split; [|split]]; cbn.
+      + intros [|[|n]]; reflexivity.
+      + repeat constructor. intros [].
+      + constructor.
+      + reflexivity.
+  Qed.
 End W.
